@@ -300,6 +300,23 @@ def run(ctx):
                                                              expected={"rc": rca, "stdout": outa[:500].decode("latin1")},
                                                              observed={"rc": rcb, "stdout": outb[:500].decode("latin1"), "stderr": errb[:200].decode("latin1")}))
         res.coverage_extra["option_source_pairs"] = nsrc
+        # a threshold option on the command line outranks sizer.threshold whatever its value — an explicit `=false` included
+        # (the option was given: the family is on the command line): the table is the one of the same command line without
+        # any gitconfig
+        nout = 0
+        for cfgval in ("0", "50", "0.5", "1e6"):
+            for sp in (["--verbose=false"], ["--critical=false"], ["--no-verbose=false"], ["--verbose", "--verbose=false"], ["--critical=0"],
+                       ["--verbose=true"], ["--no-verbose"], ["--threshold=1"], ["--critical=false", "--verbose=false"]):
+                rca, outa, erra, _ = eng.run_fake(sc, order, [], [], extra_args=sp + ["--no-progress", "--names=hash"])
+                rcb, outb, errb, _ = eng.run_fake(sc, order, [], [], config=[("sizer.threshold", cfgval)], extra_args=sp + ["--no-progress", "--names=hash"])
+                nout += 1
+                res.case(("option-outranks-gitconfig", cfgval, tuple(sp)), True)
+                if (rca, outa) != (rcb, outb):
+                    res.violations.append(vlib.Violation("sizer.threshold in gitconfig changes the table although a threshold option is on the command line",
+                                                         {"gitconfig": [("sizer.threshold", cfgval)], "command line": sp},
+                                                         expected={"rc": rca, "table": outa[:400].decode("latin1")},
+                                                         observed={"rc": rcb, "table": outb[:400].decode("latin1"), "stderr": errb[:200].decode("latin1")}))
+        res.coverage_extra["threshold_option_vs_gitconfig_pairs"] = nout
         # the threshold in force is the one of the LAST threshold option, also when an option is given again after another one
         fam = [["--verbose"], ["-v"], ["--no-verbose"], ["--critical"], ["--threshold=0"], ["--threshold=1000"], ["--threshold=0.5"], ["--threshold=1e6"],
                ["--verbose=false"], ["--critical=false"]]
